@@ -22,7 +22,7 @@ HISTORIES = {
         {"op": "Reopen"},
         {"op": "AddVersion", "c": 2, "arg": {"sym": "latest"}, "size": 300},
     ]),
-    "h2": dict(nclients=2, driver="lib", steps=[
+    "h2": dict(nclients=2, driver="http", steps=[
         {"op": "AddVersion", "c": 1, "arg": {"sym": "nil"}, "size": 4096},
         {"op": "Hold"},
         {"op": "AddVersion", "c": 1, "arg": {"sym": "latest"}, "size": 1048576},
